@@ -263,7 +263,31 @@ def mustcall(ctx):
         if ok:
             te = try_edges(b, fb[0][0])
             ok = te is not None and all(b.dominates(te[0], o) for o in ok_return_blocks(b)) and te[1] is not None and all_paths_err(b, te[1])
-        ctx.ob('MUSTCALL', 'into_inner', ok, short_loc(b.span), 'into_inner returns the sink only after finish_block()? succeeded: %s' % ok)
+            if not ok:
+                # `let res = self.finish_block(); ...; res.map(|()| writer)`: what is returned is that very result with
+                # the sink put in its Ok
+                ro = return_origin(b)
+                mp = [c for c in ro.calls if strip_generics(cname(c)).endswith('Result::map')]
+                ok = len(mp) == 1 and any(c is fb[0][1] for c in origin(b, mp[0]['args'][0]).calls) and not ok_return_blocks(b)
+        ctx.ob('MUSTCALL', 'into_inner', ok, short_loc(b.span), 'into_inner returns the sink only after finish_block() succeeded (`?`, or its result mapped): %s' % ok)
+        # ... and when that flush fails the caller gets the Err: into_inner consumes the writer, so whatever it leaves
+        # behind is dropped on the way out - with the block still pending and the sink still inside, Drop flushes again into
+        # the sink that just failed and (debug builds) panics on the second error instead of letting the first one out.
+        # The sink is taken out on EVERY way out of into_inner, and Drop does nothing once the sink is gone.
+        tk = [(bb, t) for bb, t in b.calls() if strip_generics(cname(t)).endswith('Option::take') and 'writer' in origin(b, t['args'][0]).fields and not b.is_cleanup(bb)]
+        taken_always = bool(tk) and all(any(b.dominates(x, e) for x, _ in tk) for e in b.exits() if not b.is_cleanup(e))
+        d_ = fn_by_label(f, '<' + P + 'Writer as core::ops::drop::Drop>::drop')
+        drop_guarded = False
+        if d_ is not None:
+            fl_ = [bb for bb, t in d_.calls() if strip_generics(cname(t)).endswith('Writer::finish_block') or cname(t).endswith('panic::catch_unwind')]
+            drop_guarded = bool(fl_)
+            for x in fl_:
+                g = any('Some' in names and 'writer' in oo.fields for names, adt, oo, d2, oth in option_guards(d_, x)) or \
+                    any(strip_generics(cname(c)).endswith(('Option::is_none', 'Option::is_some')) and 'writer' in origin(d_, c['args'][0]).fields
+                        for dd, si, taken in dominating_switches(d_, x) if si.get('kind') != 'enum' for c in origin(d_, si['op']).calls)
+                drop_guarded = drop_guarded and g
+        ctx.ob('MUSTCALL', 'into_inner/error-comes-out', taken_always and drop_guarded, short_loc(b.span),
+               'the sink is taken out of the writer on every way out of into_inner (also when the flush failed): %s; Drop flushes only while the sink is still there: %s' % (taken_always, drop_guarded))
     b = fn_by_label(f, P + 'Writer::finish_block')
     if b is None:
         ctx.ob('MUSTCALL', 'finish_block', False, None, 'anchor not found')
@@ -288,6 +312,19 @@ def mustcall(ctx):
         for cb in f.closures_of(d):
             if any(strip_generics(cname(t)).endswith('Writer::finish_block') for bb, t in cb.calls()):
                 viaclosure = True
-        # every path from entry to return passes one of the two
-        ok = len(direct) == 1 and len(cu) == 1 and viaclosure and must_pass(d, 0, d.exits(), [direct[0][0], cu[0][0]])
+        # every path from entry to return passes one of the two - except the early return taken when there is nothing
+        # left to flush to: the sink was taken out (into_inner) or a block write already failed and was reported
+        early = []
+        for bb in sorted(d.live_blocks()):
+            if d.term(bb)['k'] != 'switch' or d.is_cleanup(bb):
+                continue
+            si = d.switch_info(bb)
+            if si.get('kind') == 'enum':
+                continue
+            so = origin(d, si['op'])
+            none_test = any(strip_generics(cname(c)).endswith('Option::is_none') and 'writer' in origin(d, c['args'][0]).fields for c in so.calls)
+            flag_test = bool(so.fields) and so.fields <= {'flush_failed'} and not so.calls
+            if none_test or flag_test:
+                early.append(d.term(bb)['otherwise'])      # the `true` edge
+        ok = len(direct) == 1 and len(cu) == 1 and viaclosure and must_pass(d, 0, d.exits(), [direct[0][0], cu[0][0]] + early)
         ctx.ob('MUSTCALL', 'drop', ok, short_loc(d.span), 'Drop reaches finish_block on the normal arm and (inside catch_unwind) on the panicking arm: %s' % ok)
